@@ -95,6 +95,7 @@ EXH = [
 
 
 class C20(Check):
+    env_warnings_as_errors = True
     pid = "C20"
     level = "exploration"
     chunk = 100
